@@ -99,3 +99,21 @@ def const_str(node: ast.AST) -> Optional[str]:
     if isinstance(node, ast.Constant) and isinstance(node.value, str):
         return node.value
     return None
+
+
+def lexical_guards(fi: FunctionInfo, node: ast.AST):
+    """(test, 'T' | 'F') of the if / while statements that lexically enclose `node` inside fi (innermost first)."""
+    out = []
+    prev = node
+    for anc in ancestors(fi, node):
+        if isinstance(anc, (ast.FunctionDef, ast.AsyncFunctionDef, ast.Lambda)):
+            break
+        if isinstance(anc, ast.If):
+            if any(prev is x for x in anc.body):
+                out.append((anc.test, "T"))
+            elif any(prev is x for x in anc.orelse):
+                out.append((anc.test, "F"))
+        elif isinstance(anc, ast.While) and any(prev is x for x in anc.body):
+            out.append((anc.test, "T"))
+        prev = anc
+    return out
